@@ -261,8 +261,8 @@ def sendInput (e : Endpoint) (now : Nat) (inputs : List (Nat × PlayerInput))
   let data ← fromInputs e.numPlayers inputs
   let e := { e with timeSync := e.timeSync.advanceFrame data.frame e.localFrameAdvantage e.remoteFrameAdvantage }
   let e := { e with pendingOutput := e.pendingOutput ++ [data] }
-  let e := if e.pendingOutput.length > PENDING_OUTPUT_SIZE
-           then { e with eventQueue := e.eventQueue ++ [.disconnected] } else e
+  let e := if e.pendingOutput.length > PENDING_OUTPUT_SIZE && !e.disconnectEventSent
+           then { e with eventQueue := e.eventQueue ++ [.disconnected], disconnectEventSent := true } else e
   e.sendPendingOutput now connectStatus
 
 /-- `InputBytes::to_player_inputs` for `u8` inputs: every player's slice must be exactly one
